@@ -22,14 +22,16 @@ for d in sorted(glob.glob('/verif/seeded/C*/meta.json')):
     if own:
         own_s = 'caught' if own.get('detected') else ('inconclusive' if own.get('exit') == 2 else 'MISSED')
     others = [k for k, v in latest.items() if k != prop and v.get('detected')]
-    rows.append((name, 'r2' if name.endswith('-r2') else 'r1', j.get('confirmed'), (j.get('summary') or '').replace('|', '/').replace('\n', ' ')[:160], own_s, others, bool(own and own.get('detected')) or bool(others)))
+    rows.append((name, ('r2' if name.endswith('-r2') else 'r3' if name.endswith('-r3') else 'r1'), j.get('confirmed'), (j.get('summary') or '').replace('|', '/').replace('\n', ' ')[:160], own_s, others, bool(own and own.get('detected')) or bool(others)))
 lines = ['| Seed | Round | Confirmed | Change | Check of its own property | Other checks that catch it |', '|---|---|---|---|---|---|']
 for n, r, c, s, own, others, _ in rows:
     lines.append(f"| {n} | {r} | {'yes' if c else 'no'} | {s} | {own} | {', '.join(sorted(others))} |")
 def cnt(r, f):
     return sum(1 for x in rows if x[1] == r and f(x))
 txt = ''
-for r in ('r1', 'r2'):
+for r in ('r1', 'r2', 'r3'):
+    if not cnt(r, lambda x: True):
+        continue
     txt += (f"Round {r[1]}: {cnt(r, lambda x: True)} seeded changes, {cnt(r, lambda x: x[2])} confirmed; caught by the quick check of their own property: "
             f"{cnt(r, lambda x: x[4] == 'caught')}; caught by at least one quick check: {cnt(r, lambda x: x[6])}.\n")
 txt += '\n' + '\n'.join(lines) + '\n'
